@@ -51,6 +51,19 @@ theorem raised_dup_not_mem {e : List Effect} (h : dupErr false e = false) :
       | raised k => cases k <;> simp_all [dupErr]
       | _ => simp_all [dupErr]
 
+theorem caught_dup_not_mem {e : List Effect} (h : dupErr true e = false) :
+    Effect.caught .duplicateSeqNo ∉ e := by
+  induction e with
+  | nil => simp
+  | cons x r ih =>
+    intro hm
+    rcases List.mem_cons.mp hm with hx | hr
+    · subst hx; simp [dupErr] at h
+    · cases x with
+      | caught k => cases k <;> simp_all [dupErr]
+      | raised k => cases k <;> simp_all [dupErr]
+      | _ => simp_all [dupErr]
+
 structure GInv (ts : List Task) (c0 : Conn) (s : SState) : Prop where
   seg : Seg true c0 s.conn s.effects
   strict : ∀ p ∈ s.log, p.2 = .raised .duplicateSeqNo → flagOf ts p.1 = true
